@@ -46,6 +46,7 @@ type g3Fixture struct {
 	wire   []uint8 // message types parsed from the engine's outbound byte stream, in order
 	wireB  bytes.Buffer
 	peerBytes uint64 // payload bytes the raw peer has received from the engine
+	segLens   []int  // payload length of every segment the raw peer has received
 	muxDone    bool          // the muxer has shut down (its error channel was closed)
 	readerDone chan struct{} // closed when the raw peer's reader has seen EOF
 	closed bool
@@ -184,6 +185,7 @@ func (f *g3Fixture) peerReader() {
 		}
 		f.mu.Lock()
 		f.peerBytes += uint64(len(payload))
+		f.segLens = append(f.segLens, len(payload))
 		f.wireB.Write(payload)
 		for f.wireB.Len() > 0 {
 			var raw []cbor.RawMessage
